@@ -266,7 +266,9 @@ CLAIMED.update({
     text='Machine-checked proofs (Lean 4) over tables REGENERATED from the current source at every run: every assignment of an instance state in '
          'context.py - extracted by AST together with the instance states its guards let through (state tests, predicates, early returns, calls to '
          'invalidate) - is accepted by the regenerated transition table, hence no InvalidTransition for any event sequence (C16_instance_assignments_'
-         'accepted); the instance model assigns at the same sites under the same guards (C16_model_writers_match_source); every state a Supvisors state '
+         'accepted); the instance model assigns at the same sites under the same guards (C16_model_writers_match_source) and its handlers never raise '
+         'InvalidTransition from ANY state, for any operation / oracle / history (C16_instance_handlers_never_raise: Hoare triples over the state-and-'
+         'exception monad, Lemmas/InstSafe.lean); every state a Supvisors state '
          'class can decide is accepted by the FSM table; the process status synthesis never raises on any admissible history (C11); no exception other '
          'than RPCError leaves an XML-RPC method, for every method / state / parameter valuation (C17_clean_faults over the regenerated guard table). '
          'Tie + search on the implementation: four stages running the real components together (cluster lock-step with processes, stale / duplicated / '
